@@ -399,6 +399,7 @@ def run_chain(case, ctx, P):
         ctx.label(f"setup-failed:initial-forward:{type(e).__name__}")
         return
     if P == "C03":
+        _declared_bounds_honoured(ctx, m, cfg, top)
         _valid_and_rebuildable(ctx, built, m, batches, top, step_i=-1, method=None, kwargs=None)
 
     for i, step in enumerate(case["steps"]):
@@ -548,6 +549,54 @@ def run_chain(case, ctx, P):
             ctx.label("resized:shrunk")
         if resized_total or any(t in ("blocked", "fallback:blocked", "same-value") for t in tags):
             ctx.nontrivial({"top": top, "ev": events, "b": cfg.get("bounds", "tight")})
+
+
+def _declared_bounds_honoured(ctx, m, cfg, top):
+    """'stay inside the DECLARED minimum and maximum': the bounds the caller passed to the constructor are the ones the object
+    (and hence every clone / rebuild, which read them back from the object) works with.  Compared by name: every min_* / max_*
+    keyword at the top level and inside encoder_config / head_config / cnn_config / mlp_config / lstm_config must be the value of
+    the attribute of that name on the corresponding (sub-)module; names the module does not have are skipped."""
+    kw = cfg.get("kw") or {}
+
+    def holder(path):
+        obj = m
+        for part in path:
+            obj = getattr(obj, part, None)
+            if obj is None:
+                return None
+        return obj
+
+    def compare(obj, conf, where):
+        if obj is None or not isinstance(conf, dict):
+            return
+        for k, v in conf.items():
+            if (k.startswith("min_") or k.startswith("max_")) and isinstance(v, (int, float)) and hasattr(obj, k):
+                got = getattr(obj, k)
+                if isinstance(got, (int, float, np.integer, np.floating)) and float(got) != float(v):
+                    ctx.fail(f"C03/bounds/declared_bound_not_honoured/{type(obj).__name__}/{k}",
+                             f"the constructor was given {k}={v} but the {where} works with {k}={got}: every later bound check "
+                             "(and every clone / rebuild) uses a range the caller never declared", top=top, declared=v, used=got, where=where)
+
+    compare(m, kw, "object")
+    if cfg.get("kind") == "net":
+        enc = getattr(m, "encoder", None)
+        compare(enc, kw.get("encoder_config"), "encoder")
+        hd = getattr(m, "head_net", None)
+        compare(getattr(hd, "wrapped", hd), kw.get("head_config"), "head")
+        ec = kw.get("encoder_config") or {}
+        fn = getattr(enc, "feature_net", None)
+        if fn is not None:
+            for name, sub in fn.items():
+                conf = ec.get("cnn_config") if type(sub).__name__ == "EvolvableCNN" else ec.get("lstm_config") if type(sub).__name__ == "EvolvableLSTM" \
+                    else ec.get("mlp_config")
+                compare(sub, conf, f"encoder member {name}")
+    elif cfg.get("kind") == "multi":
+        fn = getattr(m, "feature_net", None)
+        if fn is not None:
+            for name, sub in fn.items():
+                conf = kw.get("cnn_config") if type(sub).__name__ == "EvolvableCNN" else kw.get("lstm_config") if type(sub).__name__ == "EvolvableLSTM" \
+                    else kw.get("mlp_config")
+                compare(sub, conf, f"member {name}")
 
 
 def _buffer_cause(c, bufs_before, out_before, batches):
